@@ -33,6 +33,18 @@ def build(rng, size, cs, delegated, corruption, chunk_how):
             {"name": "d", "keyids": [7], "threshold": 1, "paths": ["*"]}]})
         dl = [("d", 1, d)]
         metas = {"targets.json": scen.meta(tgt, 1), "d.json": scen.meta(d, 1)}
+        if rng.random() < 0.5:
+            # sibling roles before the authorised one: "m" may provide the name but does not list it; "u" lists it
+            # with another content although its paths do not cover it - the entry used must still be d's
+            m = s.targets(version=1, targets=[], sigs=scen.valid([7]))
+            u = s.targets(version=1, targets=[{"name": name, "content": other.decode("ascii")}], sigs=scen.valid([7]))
+            tgt = s.targets(version=1, targets=[], delegations={"keys": [7], "roles": [
+                {"name": "m", "keyids": [7], "threshold": 1, "paths": ["*"]},
+                {"name": "u", "keyids": [7], "threshold": 1, "paths": ["zzz/*"]},
+                {"name": "d", "keyids": [7], "threshold": 1, "paths": ["*"]}]})
+            dl = [("m", 1, m), ("u", 1, u), ("d", 1, d)]
+            metas = {"targets.json": scen.meta(tgt, 1), "m.json": scen.meta(m, 1), "u.json": scen.meta(u, 1),
+                     "d.json": scen.meta(d, 1)}
     else:
         tgt = s.targets(version=1, targets=tgt_entries)
         dl = []
@@ -63,6 +75,10 @@ def build(rng, size, cs, delegated, corruption, chunk_how):
     resolved = {"x/../y.dat": "y.dat"}.get(name, name)
     server_name = (hashlib.sha256(content).hexdigest() + "." if cs else "") + resolved
     tf = [{"name": server_name, "items": items, "endless": endless}]
+    if cs and len(dl) == 3:
+        # the repository also publishes the file the unauthorised sibling vouches for
+        tf.append({"name": hashlib.sha256(other).hexdigest() + "." + resolved, "items": [other.decode("ascii")],
+                   "endless": False})
     s.cycle(r, files, targets_files=tf, ops=[{"op": "read", "name": name}, {"op": "read", "name": "missing.txt"}],
             model_targets=(len(sent) * (len(items) + 1) <= 60000) and not endless)
     good = kind in ("none",)
@@ -119,7 +135,11 @@ def run(chk):
         if missing != [0]:
             chk.violation("a name without an entry in the trusted metadata did not yield 'not found': %s" % missing, full)
         if rd[0] != 1:
-            chk.broken("read_target did not return a stream: %s" % rd[:2], full)
+            if good:
+                chk.violation("the name has an authorised entry and its content is served intact, but read_target "
+                              "did not return a stream: %s" % rd[:2], full)
+            else:
+                chk.broken("read_target did not return a stream: %s" % rd[:2], full)
             continue
         delivered, ok = bytes(rd[2]), rd[3]
         if len(delivered) > len(content):
